@@ -56,6 +56,9 @@ LocalCase(ver, ml, fl, al) ==
       \* what sealing with caller randomness `rnd` must output (v1/v2 derive the nonce from it)
       payload |-> CASE ver = 1 -> V1Local(k, rnd, m, f) [] ver = 2 -> V2Local(k, rnd, m, f)
                     [] ver = 3 -> V3Local(k, rnd, m, f, i) [] ver = 4 -> V4Local(k, rnd, m, f, i),
+      \* the same when the payload type declares the encoding suffix "c" (header vNc.local.)
+      payload_sfx |-> CASE ver = 1 -> V1LocalS(<<99>>, k, rnd, m, f) [] ver = 2 -> V2LocalS(<<99>>, k, rnd, m, f)
+                        [] ver = 3 -> V3LocalS(<<99>>, k, rnd, m, f, i) [] ver = 4 -> V4LocalS(<<99>>, k, rnd, m, f, i),
       \* the token for an arbitrary embedded nonce (reference tokens)
       payload_from_nonce |-> CASE ver = 1 -> V1LocalFromNonce(k, n, m, f) [] ver = 2 -> V2LocalFromNonce(k, n, m, f)
                                [] ver = 3 -> V3Local(k, n, m, f, i) [] ver = 4 -> V4Local(k, n, m, f, i),
@@ -70,7 +73,9 @@ PublicCase(ver, ml, fl, al) ==
       pk == In("pk", 49)
   IN [kind |-> "public", ver |-> ver, mlen |-> ml, flen |-> fl, ilen |-> al, sig_len |-> SigLen(ver),
       tbs |-> CASE ver = 1 -> V1ToBeSigned(m, f) [] ver = 2 -> V2ToBeSigned(m, f)
-                [] ver = 3 -> V3ToBeSigned(pk, m, f, i) [] ver = 4 -> V4ToBeSigned(m, f, i)]
+                [] ver = 3 -> V3ToBeSigned(pk, m, f, i) [] ver = 4 -> V4ToBeSigned(m, f, i),
+      tbs_sfx |-> CASE ver = 1 -> V1ToBeSignedS(<<99>>, m, f) [] ver = 2 -> V2ToBeSignedS(<<99>>, m, f)
+                    [] ver = 3 -> V3ToBeSignedS(<<99>>, pk, m, f, i) [] ver = 4 -> V4ToBeSignedS(<<99>>, m, f, i)]
 
 PieCase(ver, kt, kl) ==
   [kind |-> "pie", ver |-> ver, ktype |-> kt, klen |-> kl,
